@@ -55,9 +55,10 @@ def build_driver(name, mode="tsan", repo=None):
             objs.append(o)
         so = os.path.join(tmpd, "shim.o")
         subprocess.run(["gcc", "-c", shim, "-o", so] + MODES[mode] + ["-pthread"], check=True, stdout=subprocess.PIPE, stderr=subprocess.STDOUT)
-        link = ["g++", "-o", exe + ".tmp"] + objs + [so, "-pthread", "-lm"] + (["-fsanitize=thread"] if mode == "tsan" else [])
+        tmpexe = os.path.join(tmpd, "exe")  # private to this process: several workers may build the same driver at once
+        link = ["g++", "-o", tmpexe] + objs + [so, "-pthread", "-lm"] + (["-fsanitize=thread"] if mode == "tsan" else [])
         subprocess.run(link, check=True, stdout=subprocess.PIPE, stderr=subprocess.STDOUT)
-        os.replace(exe + ".tmp", exe)
+        os.replace(tmpexe, exe)
     finally:
         subprocess.run(["rm", "-rf", tmpd])
     return exe
